@@ -248,7 +248,7 @@ class HarnessGen:
             L.append('  __typeof__(%s) %s = %s;' % (e, nm, e))
         ret = info['ret']
         isvoid = ret.base == 'void' and not ret.derivs
-        ghostret = bool(spec.get('ghost_returns')) or getattr(self, 'always_both', False)
+        ghostret = bool(spec.get('ghost_returns')) or getattr(self, 'always_both', False) or bool(spec.get('native_both'))
         objs = [(nm, t) for nm, t, isref in info['params'] if not (nm in bufs) and nm not in alias and (isref or nm in refs or (t.is_ptr() and t.deref().is_record()))]
         # ---- native only: run the REAL function on clones first when the postcondition needs ghost code
         L.append('#ifdef QX_NATIVE')
@@ -259,7 +259,7 @@ class HarnessGen:
                 et = t.deref() if nm not in buf_et else self.lw.ctype(buf_et[nm])
                 L.append('  %s = malloc(((size_t)(%s)) * sizeof(%s) + 1);' % (t.decl('r_' + nm, keep_const=False), bufs[nm], et.cast()))
                 L.append('  if ((%s) != 0) memcpy((void *)r_%s, %s, ((size_t)(%s)) * sizeof(%s));' % (bufs[nm], nm, nm, bufs[nm], et.cast()))
-                L.append('  r_%s = realloc((void *)r_%s, ((size_t)(%s)) * sizeof(%s));' % (nm, nm, bufs[nm], et.cast()))
+                L.append('  if ((%s) != 0) r_%s = realloc((void *)r_%s, ((size_t)(%s)) * sizeof(%s)); else r_%s = QX_ALLOC(0);' % (bufs[nm], nm, nm, bufs[nm], et.cast(), nm))
                 rargs.append('r_' + nm)
             elif nm in alias:
                 rargs.append('&ro_' + alias[nm] if any(o[0] == alias[nm] for o in objs) else alias[nm])
